@@ -203,6 +203,8 @@ class Eval:
                         ty = c.full[c.full.index('<') + 1:c.full.rindex('>')] if '<' in c.full else ''
                         if ty in SIZEOF:
                             self.val[d] = const(SIZEOF[ty])
+                    elif c.name == 'len' and c.args and op_local(c.args[0]) is not None:
+                        self.val[d] = sym('len(_%d)' % core.access_root(f, op_local(c.args[0])))
                     elif c.name in ('branch', 'unwrap', 'expect', 'into', 'from', 'try_into', 'unwrap_or_default') and c.args:
                         v = self.scalar(c.args[0])
                         if v is not None:
@@ -211,7 +213,8 @@ class Eval:
                         pass
                     elif not [a for a in c.args if self.scalar(a) is not None] and d not in self.val:
                         # an argument-less size provider (`NodeMeta::serialized_size_default()`): an opaque non-negative symbol
-                        self.val[d] = sym(re.sub(r'<.*', '', c.full.replace('::', '.')).rsplit('.', 2)[-2] + '.' + c.name if '::' in c.full else c.name)
+                        parts = [x for x in re.sub(r'<[^<>]*>', '', re.sub(r'<[^<>]*>', '', c.path or c.full)).replace('::', '.').split('.') if x]
+                        self.val[d] = sym('.'.join(parts[-2:]) if parts else c.name)
         return self
 
     def result(self):
